@@ -36,6 +36,9 @@ STMTS = [
     ("limit", "select id from a limit 3", False),
     ("distinct", "select distinct v from a", False),
     ("semi-join", "select id from a where id in (select id from b where w = 1)", False),
+    # EXISTS / NOT EXISTS with a non-equi correlation: nested-loop semi / anti join (buffers its right input)
+    ("nl-semi-join", "select a.id from a where a.id > 2290 and exists (select * from b where b.id > a.id and b.w > 0)", False),
+    ("nl-anti-join", "select a.id from a where a.id > 2290 and not exists (select * from b where b.id > a.id and b.w = 1)", False),
     ("many-chunks-probe", "select a.id, m.x from a join m on a.id = m.id", False),
     ("many-chunks-build", "select m.x, a.v from m join a on m.id = a.id", False),
     ("many-chunks-left-filter", "select a.v, m.id from a left join m on a.id = m.id and m.x > 0 where a.id < 1000", False),
